@@ -9,7 +9,25 @@ ENV = dict(os.environ, GOFLAGS="-mod=mod", GOPROXY="off")
 def sh(cmd, cwd=None, timeout=1800):
     p = subprocess.run(cmd, cwd=cwd, shell=isinstance(cmd, str), env=ENV, stdout=subprocess.PIPE, stderr=subprocess.STDOUT, text=True, errors="replace", timeout=timeout)
     return p.returncode, p.stdout
-mode, prop, n = sys.argv[1], sys.argv[2], sys.argv[3]
+import fcntl
+mode, prop = sys.argv[1], sys.argv[2]
+n = sys.argv[3] if len(sys.argv) > 3 else ""
+def seed_lock():
+    """/repo is shared: only one seeded patch (or clean check run by a strengthener) at a time"""
+    os.makedirs("/verif/.work", exist_ok=True)
+    f = open("/verif/.work/seed.lock", "w")
+    fcntl.flock(f, fcntl.LOCK_EX)
+    return f
+if mode == "clean":
+    # try_seed.py clean <prop> [VERIF_SEED] : run ./check on the unmutated tree, serialised with seeded runs
+    lk = seed_lock()
+    env_seed = ("VERIF_SEED=%s " % n) if n else ""
+    rc, out = sh(env_seed + "./check %s --tier quick" % prop, cwd="/verif", timeout=2400) if False else (None, None)
+    p = subprocess.run(env_seed + "./check %s --tier quick" % prop, cwd="/verif", shell=True, env=ENV, stdout=subprocess.PIPE, stderr=subprocess.STDOUT, text=True, errors="replace", timeout=2400)
+    for l in p.stdout.split("\n"):
+        if l.startswith(("VIOLATION", "BROKEN", "FAILING-INPUT", "OK ", "KNOWN-FINDING")):
+            print(l[:400])
+    sys.exit(p.returncode)
 src = "/tmp/out-%s/%s" % (prop, n)
 if not os.path.isdir(src):
     src = "/verif/seeded/%s" % n if os.path.isdir("/verif/seeded/%s" % n) else src
@@ -40,11 +58,18 @@ if mode == "demo":
     print(json.dumps({k: res[k] for k in res if not k.endswith("tail")}, indent=1))
 elif mode == "check":
     props = sys.argv[4:] or [prop]
+    lk = seed_lock()
     rc, out = sh("git -C /repo apply --check %s" % patch)
     if rc != 0:
         print("patch does not apply to /repo:", out[-400:]); sys.exit(2)
     sh("git -C /repo apply %s" % patch)
     results = {}
+    # evidence files are rewritten by every check run: keep the clean-tree ones
+    saved = {}
+    for p in props:
+        ev = "/verif/evidence/%s.json" % p
+        if os.path.exists(ev):
+            saved[ev] = open(ev).read()
     try:
         for p in props:
             t0 = time.time()
@@ -55,6 +80,8 @@ elif mode == "check":
         rc, out = sh("git -C /repo apply -R %s" % patch)
         if rc != 0:
             print("!!! could not undo the patch:", out)
+        for ev, txt in saved.items():
+            open(ev, "w").write(txt)
     json.dump(results, open(os.path.join(src, "check.json"), "w"), indent=1)
     for p, r in results.items():
         print(p, "rc=%d" % r["rc"], "%.0fs" % r["wall_s"])
@@ -67,8 +94,26 @@ elif mode == "keep":
     shutil.copy(patch, os.path.join(dst, "patch.diff"))
     if os.path.isdir(os.path.join(dst, "demo")):
         shutil.rmtree(os.path.join(dst, "demo"))
-    shutil.copytree(os.path.join(src, "demo"), os.path.join(dst, "demo"))
-    for f in ("notes.md", "confirm.json", "check.json"):
+    shutil.copytree(os.path.join(src, "demo"), os.path.join(dst, "demo"),
+                    ignore=shutil.ignore_patterns("*.test", "tile38-server*", "*.o", "bin", "data*", "*.aof"))
+    for f in ("notes.md",):
         if os.path.exists(os.path.join(src, f)):
             shutil.copy(os.path.join(src, f), os.path.join(dst, f))
-    print("kept", dst)
+    conf = json.load(open(os.path.join(src, "confirm.json"))) if os.path.exists(os.path.join(src, "confirm.json")) else {}
+    chk = json.load(open(os.path.join(src, "check.json"))) if os.path.exists(os.path.join(src, "check.json")) else {}
+    notes = open(os.path.join(src, "notes.md")).read() if os.path.exists(os.path.join(src, "notes.md")) else ""
+    title = next((l.lstrip("# ").strip() for l in notes.split("\n") if l.strip()), "")
+    files = sorted(set(l.split(" b/")[-1] for l in open(patch).read().split("\n") if l.startswith("diff --git")))
+    detected = {p: {"exit": r["rc"], "verdict": [l for l in r["lines"] if l.startswith(("VIOLATION", "BROKEN", "FAILING-INPUT"))][:4]} for p, r in chk.items()}
+    meta = {
+        "property": prop, "name": name, "title": title, "files_changed": files,
+        "needs_to_manifest": "see notes.md (written by the independent sub-agent that produced the change)",
+        "confirmed": {"demo_passes_without_patch": conf.get("demo_without_patch_rc") == 0,
+                      "demo_fails_with_patch": conf.get("demo_with_patch_rc", 0) != 0,
+                      "build_and_suite_pass_with_patch": conf.get("suite_with_patch_rc") == 0,
+                      "how": "tools/try_seed.py demo: scratch worktree of /repo HEAD, demo/run.sh before and after `git apply patch.diff`, go build ./... && go test ./..."},
+        "checks_run": {"how": "tools/try_seed.py check: git -C /repo apply patch.diff; ./check <prop> --tier quick; git -C /repo apply -R patch.diff", "results": detected},
+        "caught": any(r["rc"] != 0 for r in chk.values()),
+    }
+    json.dump(meta, open(os.path.join(dst, "meta.json"), "w"), indent=1)
+    print("kept", dst, "caught=", meta["caught"])
